@@ -523,73 +523,113 @@ def cc2(repo: Repo) -> RuleResult:
 
 @rule("CD4", "C runtime sign extension: only storage-sized widths are skipped; each case works on the unsigned type of its own size from bit nbits-1")
 def cd4(repo: Repo) -> RuleResult:
+    """BpHandleIntSignAfterEndecode(size, nbits, ctx, data) is summarised by the
+    path engine and folded over every (size in 1,2,4,8) x (nbits in 1..8*size)
+    x (encode, decode): decoding a width narrower than its storage must test
+    bit nbits-1 of the size-byte unsigned value at data and OR in all bits
+    from nbits upward; every other case must leave the value alone."""
+    from .flows import c_runtime
+    from .fold import by_name, feasible, replace_atoms
+    from .node2py import PTR_WIDTH
+    from .normal import C as K, show
+    from .pyflow import single_atom
+
     res = RuleResult("CD4", floor=5)
     try:
-        c = get_c(repo, False)
+        L = c_runtime(repo, False)
+        fn = L.func("BpHandleIntSignAfterEndecode")
+        params = [a.arg for a in fn.args.args]
+        if len(params) != 4:
+            raise Inconclusive(f"parameters {params}")
+        psize, pnbits, pctx, pdata = params
+        paths = L.flow(None, names={}, havoc_on=()).run(fn)
     except Inconclusive as e:
         res.unsure(f"CD4: {e}")
         return res
-    f = c.func("BpHandleIntSignAfterEndecode")
-    st = f.body.stmts
-    # early returns
-    early = [s for s in st if s.k == "if" and any(x.k == "return" for x in s.body.stmts)]
-    conds = [go_src(s.cond) for s in early]
-    res.inst(function=f.name, early_returns=conds)
-    if not any(txt(s.cond) == "ctx.is_encode" for s in early):
-        res.bad(Finding("CD4", C_RT, f.line, f.name, str(conds), "the sign step is not skipped when encoding", tag="c:sign:encode"))
-    skip: Set[int] = set()
-    for s in early:
-        if txt(s.cond) == "ctx.is_encode":
-            continue
-        parts = [s.cond]
-        ok = True
-        lits: Set[int] = set()
-        stack = [s.cond]
-        while stack:
-            e = stack.pop()
-            e = strip(e) if e.k == "paren" else e
-            if e.k == "bin" and e.op == "||":
-                stack.extend([e.l, e.r])
-            elif e.k == "bin" and e.op == "==" and txt(e.l) == "nbits" and e.r.k == "int":
-                lits.add(e.r.v)
-            else:
-                ok = False
-        if not ok:
-            res.unsure(f"CD4: early return condition `{go_src(s.cond)}` is not a disjunction of nbits == k")
-        skip |= lits
-    if not skip <= {8, 16, 32, 64}:
-        bad = sorted(skip - {8, 16, 32, 64})
-        res.bad(Finding("CD4", C_RT, f.line, f.name, str(sorted(skip)), f"widths {bad} are skipped although their storage is wider than the width", witness=f"int{bad[0]} holding -1 decodes as a large positive number", tag="c:sign:skip-set"))
-    nassign = [s for s in st if s.k == "assign" and go_src(s.lhs[0]) == "n"]
-    if not (len(nassign) == 1 and txt(nassign[0].rhs[0]) in ("size<<3", "size*8", "8*size")):
-        res.unsure("CD4: `n = size << 3` not recognised")
-    sw = [s for s in st if s.k == "switch" and txt(s.tag) == "n"]
-    if len(sw) != 1:
-        res.unsure("CD4: switch (n) not found")
-        return res
-    seen = set()
-    for cs in sw[0].cases:
-        for v in cs.vals or []:
-            W = int(go_src(v))
-            seen.add(W)
-            ut = f"uint{W}_t"
-            ifs = [s for s in cs.body if s.k == "if"]
-            res.inst(function=f.name, case=W, statements=len(cs.body))
-            if len(ifs) != 1:
-                res.unsure(f"CD4: case {W}: not a single if")
-                continue
-            test, body = ifs[0].cond, ifs[0].body.stmts
-            casts = {x.type.name.replace(" ", "") for x in walk(ifs[0]) if x.get("k") == "conv"}
-            if not casts <= {ut, ut + "*"}:
-                res.bad(Finding("CD4", C_RT, cs.line, f.name, str(sorted(casts)), f"case {W} works on {sorted(casts - {ut, ut + '*'})} instead of the {W}-bit unsigned type: wrong bytes are tested / widened", witness=f"int{W - 3} in an int{W}_t", tag=f"c:sign:case{W}:type"))
-            t = txt(test)
-            if f"{ut}1<<nbits-1" not in t or "&" not in t:
-                res.bad(Finding("CD4", C_RT, cs.line, f.name, go_src(test), "the test does not look at bit nbits-1", witness="int5 holding -3 / +3", tag=f"c:sign:case{W}:test"))
-            asg = [s for s in body if s.k == "assign"]
-            if len(asg) != 1 or asg[0].op != "|=" or f"^{ut}1<<nbits-1" not in txt(asg[0].rhs[0]):
-                res.bad(Finding("CD4", C_RT, cs.line, f.name, go_src(asg[0].rhs[0]) if asg else "", "the value is not ORed with ~((1 << nbits) - 1)", witness="int5 holding -3", tag=f"c:sign:case{W}:mask"))
-    if seen != {8, 16, 32, 64}:
-        res.bad(Finding("CD4", C_RT, sw[0].line, f.name, str(sorted(seen)), f"storage sizes {sorted({8,16,32,64} - seen)} have no sign-extension case", witness="int24 (stored in int32_t) holding -1", tag="c:sign:cases"))
+    line = fn.lineno
+
+    def width_of(base: Any) -> Tuple[int, str]:
+        a = single_atom(base) if base is not None else None
+        if a is not None and a[0] == "ptr":
+            return PTR_WIDTH.get(a[1], 0), show(a[2])
+        return 1, show(base) if base is not None else "?"
+
+    def bad(tag: str, msg: str, construct: str = "", witness: str = "") -> None:
+        if not any(f.tag == tag for f in res.findings):
+            res.bad(Finding("CD4", C_RT, line, fn.name, construct, msg, witness=witness, tag=tag))
+
+    points = 0
+    for size in (1, 2, 4, 8):
+        W = 8 * size
+        # the generator passes size = bytes of the smallest storage holding nbits
+        for nbits in range(1 if W == 8 else W // 2 + 1, W + 1):
+            for enc in (1, 0):
+                repl = by_name({psize: size, pnbits: nbits, f"{pctx}.is_encode": enc})
+                ok, unfolded = feasible(paths, repl, ignore=lambda k: k[0] == "truthy" and any(a[0] == "load" for a in _deep_atoms(k[1])))
+                if unfolded:
+                    res.unsure(f"CD4: condition `{str(unfolded[0])[:100]}` does not fold for size {size}, nbits {nbits}")
+                    return res
+                points += 1
+                stores_by_path = [[e for e in p_.effects if e.kind == "store"] for p_ in ok]
+                others = [e for p_ in ok for e in p_.effects if e.kind not in ("store",)]
+                if others:
+                    res.unsure(f"CD4: `{others[0]!r}` on a sign-extension path is outside the enumerated forms")
+                    return res
+                need = (not enc) and nbits < W
+                storing = [(p_, st_) for p_, st_ in zip(ok, stores_by_path) if st_]
+                if not need:
+                    if storing:
+                        if enc:
+                            bad("c:sign:encode", "the sign step is not skipped when encoding", construct=repr(storing[0][1][0]))
+                        else:
+                            bad("c:sign:full-width", f"a width that fills its storage (int{nbits} in {W} bits) is sign-extended: the shift by {nbits} is undefined", construct=repr(storing[0][1][0]))
+                    continue
+                if not storing:
+                    if not any(p_.done == "return" for p_ in ok):
+                        res.unsure(f"CD4: no path for size {size}, nbits {nbits}")
+                        return res
+                    # is the width skipped, or has the storage size no case?
+                    skipped_early = all(not any(k[0] == "truthy" and any(a[0] == "load" for a in _deep_atoms(k[1])) for k, _ in p_.guards) for p_ in ok)
+                    if skipped_early:
+                        bad("c:sign:skip-set", f"width {nbits} (stored in {W} bits) is not sign-extended: the width is skipped, or storage size {W} has no sign-extension case", construct=f"size={size}, nbits={nbits}", witness=f"int{nbits} holding -1 decodes as a large positive number")
+                    continue
+                for p_, sts in storing:
+                    if len(sts) != 1:
+                        bad("c:sign:stores", f"{len(sts)} stores on one sign-extension path", construct=str([repr(x) for x in sts]))
+                        continue
+                    st_ = sts[0]
+                    w, base = width_of(st_.recv)
+                    if w != size or base != pdata:
+                        bad(f"c:sign:case{W}:type", f"case {W} stores through a {8 * w}-bit access at `{base}` instead of the {W}-bit unsigned value at data: wrong bytes are widened", construct=repr(st_), witness=f"int{W - 3} in an int{W}_t")
+                        continue
+                    val = replace_atoms(st_.args[1], repl).const_value()
+                    want = (-(1 << nbits)) % (1 << W)
+                    if st_.op != "|=" or val is None or val % (1 << W) != want:
+                        bad(f"c:sign:case{W}:mask", f"for int{nbits} in {W} bits the value is not ORed with ~((1 << nbits) - 1): `{st_.op} {val if val is not None else show(st_.args[1])}`", construct=repr(st_), witness="int5 holding -3")
+                    # the test that selected this path
+                    tests = [(k, t) for k, t in p_.guards if k[0] == "truthy" and any(a[0] == "load" for a in _deep_atoms(k[1]))]
+                    okt = False
+                    for k, t in tests:
+                        tv = replace_atoms(k[1], repl)
+                        a = single_atom(tv)
+                        if t and a is not None and a[0] == "and":
+                            consts = [x.const_value() for x in a[1] if x.const_value() is not None]
+                            loads = [x for x in a[1] if x.const_value() is None]
+                            if consts == [1 << (nbits - 1)] and len(loads) == 1:
+                                la = single_atom(loads[0])
+                                if la is not None and la[0] == "load":
+                                    lw_, lbase = width_of(la[1]) if not isinstance(la[1], str) else (1, la[1])
+                                    if lw_ == size and lbase == pdata:
+                                        okt = True
+                                    else:
+                                        bad(f"c:sign:case{W}:type", f"case {W} tests a {8 * lw_}-bit value at `{lbase}` instead of the {W}-bit unsigned value at data", construct=show(tv), witness=f"int{W - 3} in an int{W}_t")
+                                        okt = True
+                        elif t and a is not None and a[0] == "mod8" and nbits == 3 and False:
+                            okt = True
+                    if not okt and not any(f.tag.startswith(f"c:sign:case{W}:type") for f in res.findings):
+                        bad(f"c:sign:case{W}:test", f"for int{nbits} in {W} bits the test does not look at bit nbits-1", construct=str([show(replace_atoms(k[1], repl)) for k, _ in tests]), witness="int5 holding -3 / +3")
+        res.inst(function=fn.name, case=W, widths=W)
+    res.inst(function=fn.name, points=points, paths=len(paths))
     return res
 
 
